@@ -830,7 +830,7 @@ class XMLParserMixin(
                 context[key] = email
         else:
             author, email = context.get(key), None
-            if not author:
+            if not author or not isinstance(author, str):
                 return
             emailmatch = email_pattern.search(author)
             if emailmatch:
